@@ -229,6 +229,11 @@ def node_main(args):
     ds = base.dataset
     base = base.replace(dataset=ds[ds['ID'] <= 4].reset_index(drop=True))
     base0 = base
+    try:
+        lin = load_example_model('pheno_linear')
+        lin = lin.replace(dataset=lin.dataset[lin.dataset['ID'] <= 6].reset_index(drop=True))
+    except Exception:
+        lin = None
     out = []
     stored = {}
     db = None
@@ -247,7 +252,9 @@ def node_main(args):
             # transformations (add_cmt, add_admid) modify the caller's DataFrame in place
             # (an immutability defect outside C12, see DESIGN.md O7) and must not leak into
             # the other models of the batch
-            base_i = base0.replace(dataset=base0.dataset.copy())
+            src = lin if (lin is not None and i % 7 == 3) else base0     # second corpus model
+            rec['corpus'] = 'pheno_linear' if src is lin else 'pheno'
+            base_i = src.replace(dataset=src.dataset.copy())
             A = _apply(base_i, T, hist, log)
             rec['history'] = log
             rec['A'] = _facts(A, ModelHash)
